@@ -101,7 +101,7 @@ fn one_run(program_seed: u64, schedule_seed: u64, mix: &str) -> (Vec<serde_json:
                         let all = prng.chance(1, 3);
                         let ev = prng.below(2) as u32;
                         let k = 1 + prng.below(4);
-                        bus.spawn_app(ctx.name.clone(), roles::subscriber(ctx, slot.clone(), all, ev, k));
+                        bus.spawn_app(ctx.name.clone(), roles::subscriber(ctx, s, slot.clone(), all, ev, k));
                         roles_n += 1;
                     }
                     if ncallers == 0 {
